@@ -25,7 +25,7 @@ RULE = ('case = (behavioural class described by an IR: ports with widths 1..32, 
         'constants, constructor constants, one clock or propagate body built from assignments, +=, if/elif/else nests, '
         'match/case, and/or/not, comparisons, + - * // % & | ^ ~ << >>, get/prepare/put; an input sequence). Programs are '
         'rendered with minimal parentheses. A second generator adds one unsupported construct; a corpus adds the library\'s '
-        'own behavioural blocks. Non-trivial iff the body took at least two different paths over the run and some output '
+        'own behavioural blocks; a stratum of flat n-ary and/or chains (2..9 operands) with stimulus around the neutral assignment; a decoy instance of the same class with other constructor constants is transpiled first in half of the cases with constants. Non-trivial iff the body took at least two different paths over the run and some output '
         'changed. Distinct by JSON hash. Inputs that leave the domain Verilog gives the intermediate values (a carry, '
         'borrow or sign lost by expression sizing, detected on the emitted expression tree) cut the sequence and are counted.')
 ASSUMPTIONS = [
@@ -42,9 +42,13 @@ _COUNT = [0]
 def tmpdir():
     global _TMP
     if _TMP is None:
-        _TMP = tempfile.mkdtemp(prefix='c02_progs_')
-        import atexit
-        atexit.register(lambda: shutil.rmtree(_TMP, ignore_errors=True))
+        base = os.environ.get('VERIF_SCRATCH')
+        if base and os.path.isdir(base):
+            _TMP = tempfile.mkdtemp(prefix='c02_progs_', dir=base)      # removed by the runner at the end of the run
+        else:
+            _TMP = tempfile.mkdtemp(prefix='c02_progs_')
+            import atexit
+            atexit.register(lambda: shutil.rmtree(_TMP, ignore_errors=True))
     return _TMP
 
 
@@ -289,6 +293,16 @@ def _run_program(case, prog, cls, src, tags, unsupported):
     known = sorted(KNOWN_TRIGGERS[f] for f in feats if f in KNOWN_TRIGGERS)
     ktag = ('|' + '+'.join(known)) if known else ''
     seq = prog['kind'] == 'seq'
+    if case.get('decoy') is not None and prog['consts']:
+        # another instance of the same class, built with other constructor constants, is transpiled first: what the
+        # transpiler learnt from it must not leak into the text of the instance under test
+        try:
+            dprog = dict(prog, consts=[[n, v] for (n, _), v in zip(prog['consts'], case['decoy'])])
+            _, dobj, _, _ = instantiate(dprog, cls)
+            py4hw.VerilogGenerator(dobj).getVerilog(noInstanceNumber=True)
+        except Exception:
+            pass
+        tags.append('decoy_instance_first')
     try:
         sysm, obj, ins, outs = instantiate(prog, cls)
     except Exception as e:
@@ -309,12 +323,14 @@ def _run_program(case, prog, cls, src, tags, unsupported):
         return fail('illegal_text|{}{}{}'.format(problems[0][0], '|unsupported:' + unsupported if unsupported else '', ktag),
                     'the transpiler returned ill-formed text: {}\n--- python ---\n{}--- verilog ---\n{}'.format(problems[0][1], src, text[:1200]), cls=tags)
     sim = sysm.getSimulator()
+    in_names = [py4hw.rtl_generation.getPortName(p) for p in obj.inPorts]
+    first = [v & mask(w) for v, (n, w) in zip(case['inputs'][0], prog['ins'])]
     try:
-        vs = vlog.Sim(mods, mods[0].name)
+        # elaborated with the first input vector and the domain guard armed: the evaluation done at time 0 is the one
+        # judged in cycle 0 when the inputs do not change afterwards
+        vs = vlog.Sim(mods, mods[0].name, inputs=dict(zip(in_names, first)), guard=True)
     except vlog.VSimError as e:
         return fail('illegal_text|elaboration' + ktag, 'text does not elaborate: {}\n{}'.format(e, text[:800]), cls=tags)
-    vs.guard = True
-    in_names = [py4hw.rtl_generation.getPortName(p) for p in obj.inPorts]
     out_names = [py4hw.rtl_generation.getPortName(p) for p in obj.outPorts]
     stn = state_names(prog)
     paths = set()
@@ -327,7 +343,7 @@ def _run_program(case, prog, cls, src, tags, unsupported):
             w_.put(v)
         for n, v in zip(in_names, vec):
             vs.poke(n, v)
-        before = vs.domain_violations
+        before = vs.domain_violations if t > 0 else 0
         try:
             if seq:
                 sim.clk(1)
@@ -336,6 +352,11 @@ def _run_program(case, prog, cls, src, tags, unsupported):
         except Exception as e:
             if unsupported:
                 return ok(False, tags + ['python_side_raises'])
+            if isinstance(e, (ValueError, ZeroDivisionError, OverflowError)):
+                # e.g. a shift by a local that went negative: the Python method itself has no value here
+                tags.append('cut:python_raises')
+                cut = True
+                break
             raise HarnessError('generated program raised in Python: {!r}\n{}'.format(e, src))
         try:
             if seq:
@@ -432,8 +453,20 @@ def programs(draw, kind=None, allow_known=False):
                 rhs = expr(defined, 1)
             return ['cmp', draw(st.sampled_from(sorted(CMPOPS))), expr(defined, 1), rhs]
         if k in ('and', 'or'):
-            n = draw(st.integers(2, 3))
-            return [k] + [cond(defined, depth - 1) for _ in range(n)]
+            n = draw(st.sampled_from([2, 2, 3, 3, 4, 5, 6, 7]))      # flat n-ary BoolOp chains
+            if n <= 3:
+                return [k] + [cond(defined, depth - 1) for _ in range(n)]
+            # long chains: most operands hold the neutral value of the operator (true for and, false for or) on
+            # non-negative data, so that the late operands decide the result
+            terms = []
+            for _ in range(n):
+                if draw(st.integers(0, 9)) < 6:
+                    terms.append(['cmp', '>=' if k == 'and' else '<', atom(defined), ['c', 0]])
+                elif draw(st.booleans()):
+                    terms.append(['cmp', '==', ['bin', '&', atom(defined), ['c', 1]], ['c', draw(st.integers(0, 1))]])
+                else:
+                    terms.append(cond(defined, 0))
+            return [k] + terms
         if k == 'not':
             return ['not', cond(defined, depth - 1)]
         return ['cmp', '!=', atom(defined), ['c', 0]]
@@ -489,6 +522,58 @@ def cases(draw, n_cycles, allow_known=False):
     n = draw(st.integers(2, n_cycles))
     small = st.integers(0, 7)
     seq = [[draw(st.one_of(small, value_st(w))) for _, w in prog['ins']] for _ in range(n)]
+    case = {'kind': 'program', 'prog': prog, 'inputs': seq}
+    if prog['consts'] and draw(st.booleans()):
+        case['decoy'] = [draw(st.integers(0, 9).filter(lambda x, v=v: x != v)) for _, v in prog['consts']]
+    return case
+
+
+@st.composite
+def chain_cases(draw, n_cycles):
+    """flat n-ary and / or chains (2..9 operands) over independent input predicates decide a state update / an output;
+    the inputs are drawn so that the leading operands usually hold the neutral value and any operand can decide"""
+    kind = draw(st.sampled_from(['seq', 'comb']))
+    n = draw(st.integers(2, 9))
+    op = draw(st.sampled_from(['and', 'or']))
+    n_in = draw(st.integers(2, 4))
+    ins = [('a%d' % i, draw(st.sampled_from([1, 2, 4, 8]))) for i in range(n_in)]
+    terms = []
+    for j in range(n):
+        a, w = ins[j % n_in] if j < n_in else draw(st.sampled_from(ins))
+        bit = draw(st.integers(0, w - 1))
+        pol = draw(st.integers(0, 1))
+        t = ['cmp', '==', ['bin', '&', ['bin', '>>', ['in', a], ['c', bit]], ['c', 1]], ['c', pol]]
+        if draw(st.integers(0, 4)) == 0:
+            t = ['cmp', draw(st.sampled_from(['<', '>=', '!='])), ['in', a], ['c', draw(st.integers(0, mask(w)))]]
+        terms.append(t)
+    chain = [op] + terms
+    if draw(st.integers(0, 3)) == 0:
+        chain = ['not', chain]
+    if kind == 'seq':
+        state = [('s0', 0)]
+        body = [['if', [[chain, [['assign', ['st', 's0'], ['bin', '&', ['bin', '+', ['st', 's0'], ['c', 1]], ['c', 255]]]]]],
+                 [['assign', ['st', 's0'], ['bin', '&', ['bin', '+', ['st', 's0'], ['c', 2]], ['c', 255]]]] if draw(st.booleans()) else None],
+                ['out', 'q0', ['st', 's0']]]
+    else:
+        state = []
+        body = [['assign', ['loc', 'x0'], ['c', 0]],
+                ['if', [[chain, [['assign', ['loc', 'x0'], ['c', 1]]]]], None],
+                ['out', 'q0', ['loc', 'x0']]]
+    prog = {'kind': kind, 'ins': ins, 'outs': [('q0', 8)], 'state': state, 'consts': [], 'body': body}
+    # stimulus: each vector starts from the assignment that makes every term neutral, then a few bits are flipped
+    neutral = 1 if op == 'and' else 0
+    seq = []
+    for _ in range(draw(st.integers(4, n_cycles))):
+        vec = {a: 0 for a, _ in ins}
+        for t in terms:
+            if t[2][0] == 'bin':
+                a, bit, pol = t[2][2][2][1], t[2][2][3][1], t[3][1]
+                want = pol if neutral else 1 - pol
+                vec[a] = (vec[a] & ~(1 << bit)) | (want << bit)
+        for a, w in ins:
+            if draw(st.integers(0, 2)) == 0:
+                vec[a] ^= 1 << draw(st.integers(0, w - 1))
+        seq.append([vec[a] for a, _ in ins])
     return {'kind': 'program', 'prog': prog, 'inputs': seq}
 
 
@@ -602,11 +687,11 @@ def run_corpus(case):
     if problems:
         return fail('corpus|{}|illegal_text|{}'.format(name, problems[0][0]), '{}\n{}'.format(problems[0][1], text[:1500]), cls=tags)
     sim = sysm.getSimulator()
-    vs = vlog.Sim(mods, mods[0].name)
-    vs.guard = True
     in_names = [py4hw.rtl_generation.getPortName(p) for p in obj.inPorts]
     out_names = [py4hw.rtl_generation.getPortName(p) for p in obj.outPorts]
     in_wires = [p.wire for p in obj.inPorts]
+    first = [v & mask(w_.getWidth()) for v, w_ in zip(case['inputs'][0], in_wires)]
+    vs = vlog.Sim(mods, mods[0].name, inputs=dict(zip(in_names, first)), guard=True)
     out_wires = [p.wire for p in obj.outPorts]
     changed = False
     prev = None
@@ -616,7 +701,7 @@ def run_corpus(case):
             w_.put(v)
         for n, v in zip(in_names, vec):
             vs.poke(n, v)
-        before = vs.domain_violations
+        before = vs.domain_violations if t > 0 else 0
         sim.clk(1)
         vs.cycle()
         if vs.domain_violations > before or vs.undefined_events:
@@ -685,6 +770,7 @@ def strata(tier):
     q = tier == 'quick'
     return [
         {'name': 'programs', 'kind': 'hyp', 'examples': 400 if q else 10000, 'strategy': lambda: cases(12 if q else 30), 'run_case': run_case},
+        {'name': 'flat_boolean_chains', 'kind': 'hyp', 'examples': 150 if q else 4000, 'strategy': lambda: chain_cases(10 if q else 24), 'run_case': run_case},
         {'name': 'programs_with_known_triggers', 'kind': 'hyp', 'examples': 100 if q else 2000,
          'strategy': lambda: cases(8, allow_known=True), 'run_case': run_case},
         {'name': 'unsupported_constructs', 'kind': 'hyp', 'examples': 120 if q else 2400, 'strategy': lambda: unsupported_cases(6), 'run_case': run_case},
